@@ -18,7 +18,7 @@ def run(ctx):
     ]
     ctx.translate("tables", tables.run_c06, os.path.join(ctx.work, "gen"), os.path.join(ctx.work, "conjtab.json"))
     fingerprint.check(ctx, "packages/core/quri_parts/core/operator/pauli.py", ["pauli_product", "PauliLabel.__str__",
-                                                                                "_parse_pauli_label_str"])
+                                                                                "PauliLabel.__new__", "_parse_pauli_label_str"])
     fingerprint.check(ctx, "packages/core/quri_parts/core/operator/operator.py",
                       ["Operator.add_term", "Operator.__iadd__", "Operator.__isub__", "Operator.__mul__",
                        "Operator.__itruediv__", "Operator.hermitian_conjugated", "commutator"])
